@@ -35,7 +35,11 @@ def emit_types(d):
             continue
         fields = ty.get('fields', [])
         fl = ''.join('\t%s %s\n' % (fn, texpr(d, ft)) for fn, ft in fields)
-        out.append('type %s struct {\n\tterm string\n%s}\n' % (name, fl))
+        if ty.get('alias'):
+            # the type everybody names is an alias declaration (type T = TU): transparent to the type checker
+            out.append('type %sU struct {\n\tterm string\n%s}\n\ntype %s = %sU\n' % (name, fl, name, name))
+        else:
+            out.append('type %s struct {\n\tterm string\n%s}\n' % (name, fl))
         finit = ''.join(', %s: mk_%s(rt.Fld(term, "%s"))' % (fn, ft, fn) for fn, ft in fields)
         if ty.get('is_error'):
             out.append('func (t %s%s) Error() string { return "i implement error, but i am a value" }\n' % ('*' if form == 'ptr' else '', name))
